@@ -4,9 +4,11 @@ import (
 	"bytes"
 	"encoding/json"
 	"fmt"
+	"io"
 	"os"
 	"os/exec"
 	"path/filepath"
+	"runtime/debug"
 	"sort"
 	"strings"
 	"time"
@@ -67,7 +69,7 @@ func runWorker(ps *propSpec, tier string, seed uint64, from, to, stride int, dig
 		if ps.Isolated {
 			res = execIsolated(ps.ID, tr)
 		} else {
-			res = w.Exec(ps.ID, tr)
+			res = guardedExec(w, ps.ID, tr)
 		}
 		out.Runs++
 		if res.Fatal != "" {
@@ -82,7 +84,7 @@ func runWorker(ps *propSpec, tier string, seed uint64, from, to, stride int, dig
 			out.Faults[k] += v
 		}
 		for k, v := range res.Probes {
-			out.Probes[k] += v
+			addProbe(out.Probes, k, v)
 		}
 		if res.NonTrivial {
 			out.NonTrivial++
@@ -112,6 +114,17 @@ func runWorker(ps *propSpec, tier string, seed uint64, from, to, stride int, dig
 	}
 	sort.Slice(out.Shapes, func(i, j int) bool { return out.Shapes[i] < out.Shapes[j] })
 	return out
+}
+
+// addProbe sums counters, except those named max_*, which keep the maximum.
+func addProbe(m map[string]int, k string, v int) {
+	if strings.HasPrefix(k, "max_") {
+		if v > m[k] {
+			m[k] = v
+		}
+		return
+	}
+	m[k] += v
 }
 
 func traceJSON(t *Trace) string {
@@ -174,7 +187,20 @@ func execTrace(ps *propSpec, tr *Trace) *Result {
 	if ps.Isolated {
 		return execIsolated(ps.ID, tr)
 	}
-	return w.Exec(ps.ID, tr)
+	return guardedExec(w, ps.ID, tr)
+}
+
+// guardedExec turns a panic that escapes a world (library code panicking on a
+// path no oracle wraps) into harness trouble with the stack, never into a
+// pass and never into a VIOLATION of a property it cannot be attributed to.
+func guardedExec(w World, prop string, tr *Trace) (res *Result) {
+	defer func() {
+		if r := recover(); r != nil {
+			res = newResult()
+			res.Fatal = fmt.Sprintf("panic escaped the world %s: %v\n%s", w.Name(), r, tail(string(debug.Stack()), 1500))
+		}
+	}()
+	return w.Exec(prop, tr)
 }
 
 type resultWire struct {
@@ -216,7 +242,13 @@ func fromWire(w *resultWire) *Result {
 
 // execOne runs one trace file in this process and prints the wire result.
 func execOne(path, prop string) int {
-	b, err := os.ReadFile(path)
+	var b []byte
+	var err error
+	if path == "-" {
+		b, err = io.ReadAll(os.Stdin)
+	} else {
+		b, err = os.ReadFile(path)
+	}
 	if err != nil {
 		fmt.Fprintln(os.Stderr, err)
 		return 2
@@ -470,7 +502,7 @@ func drive(ps *propSpec, tier string, seed uint64, evidencePath, replayDir, find
 			total.Faults[k] += v
 		}
 		for k, v := range o.Probes {
-			total.Probes[k] += v
+			addProbe(total.Probes, k, v)
 		}
 		for _, s := range o.Shapes {
 			shapes[s] = true
